@@ -262,7 +262,7 @@ def explore(S, want=('C06',), per_kind=10, max_nodes=14, deep=False):
                             nd = index.get(a[2][0]) if a[2] else None
                             full += strip_layout(nd.into_text().concrete()) if nd is not None else '�'
                     got = full
-                    same = streams_match(full, exp_toks, exp_cmts, ncolon)
+                    same = bool(streams_match(full, exp_toks, exp_cmts, ncolon))
                     if want[0] == 'C05':
                         continue            # only panic freedom is asked for
                     ctx.must_hold(same, '%s:tokens-added-dropped-or-reordered' % want[0],
